@@ -265,7 +265,8 @@ impl Sys {
         let who = auth_addrs(op, &self.names);
         let kind = s(op, "op");
         let addr = |k: &str| self.names.get(s(op, k));
-        let role = |k: &str| Symbol::new(e, s(op, k));
+        // the role name "empty" stands for the empty symbol (a legal Symbol, and the placeholder of the library's events)
+        let role = |k: &str| Symbol::new(e, if s(op, k) == "empty" { "" } else { s(op, k) });
         let now = seq(e);
         let (res, code) = match kind {
             "grant" => {
@@ -507,7 +508,7 @@ fn main() {
                             mk(kind, "none", role, "none", &caller, &gen_auth(&mut r, &caller, &admin, accts))
                         }
                         "set_role_admin" => {
-                            let (role, arole) = (*pick(&mut r, &ROLES), *pick(&mut r, &ROLES));
+                            let (role, arole) = (*pick(&mut r, &ROLES), if r.gen_ratio(1, 6) { "empty" } else { *pick(&mut r, &ROLES) });
                             mk(kind, "none", role, arole, "none", &gen_auth(&mut r, &admin, &admin, accts))
                         }
                         "transfer" => {
